@@ -15,6 +15,8 @@
 //!   wrongfmt <i> <cls> <code> <fmt> <n> <payload>            valid body under another body format
 //!   stream|cstream <i> <cls> <code> <id> <notify> <ec> <qfmt> <query> <n> <payload>   streaming writers
 //!   net <i> <server> <client> <kind> <route> <cls> <code> <plen> <n> <payload>        real servers and clients
+//!   cap <i> <client> <kind> <cls> <code> <plen> <n> <payload>    the raw request frame a client helper puts on the
+//!                                                                wire (capture peer), then served by the borrowing route
 use half::{bf16, f16};
 use repe::server::{HandlerErased, Router};
 use repe::{CallContext, Complex, Message, MessageView};
@@ -784,6 +786,57 @@ struct Net {
     addr: [String; 2],
     sync_client: [repe::Client; 2],
     async_client: [repe::AsyncClient; 2],
+    /// clients connected to the capture peer, and the frames it recorded
+    cap_sync: repe::Client,
+    cap_async: repe::AsyncClient,
+    captured: Mutex<std::sync::mpsc::Receiver<Vec<u8>>>,
+}
+
+/// A stand-in peer that records every request frame byte for byte and answers it: the request body
+/// comes back as the response body (an aligned request is answered with an empty array of its type).
+fn start_capture() -> (String, std::sync::mpsc::Receiver<Vec<u8>>) {
+    use std::io::{Read, Write};
+    let listener = std::net::TcpListener::bind("127.0.0.1:0").unwrap();
+    let addr = listener.local_addr().unwrap().to_string();
+    let (tx, rx) = std::sync::mpsc::channel::<Vec<u8>>();
+    std::thread::spawn(move || {
+        for stream in listener.incoming() {
+            let Ok(mut stream) = stream else { continue };
+            let tx = tx.clone();
+            std::thread::spawn(move || {
+                let _ = stream.set_nodelay(true);
+                loop {
+                    let mut hdr = [0u8; 48];
+                    if stream.read_exact(&mut hdr).is_err() {
+                        return;
+                    }
+                    let id = u64::from_le_bytes(hdr[16..24].try_into().unwrap());
+                    let q = u64::from_le_bytes(hdr[24..32].try_into().unwrap()) as usize;
+                    let b = u64::from_le_bytes(hdr[32..40].try_into().unwrap()) as usize;
+                    if q > (1 << 26) || b > (1 << 28) {
+                        return;
+                    }
+                    let mut rest = vec![0u8; q + b];
+                    if stream.read_exact(&mut rest).is_err() {
+                        return;
+                    }
+                    let mut frame = hdr.to_vec();
+                    frame.extend_from_slice(&rest);
+                    let body = &rest[q..];
+                    let resp_body: Vec<u8> = if body.first() == Some(&0x5C) && body.len() > 1 { vec![body[1], 0] } else { body.to_vec() };
+                    let resp = RawFrame::request(id, false, 1, &rest[..q], 1, &resp_body).to_vec();
+                    let notify = hdr[11] != 0;
+                    if tx.send(frame).is_err() {
+                        return;
+                    }
+                    if !notify && stream.write_all(&resp).is_err() {
+                        return;
+                    }
+                }
+            });
+        }
+    });
+    (addr, rx)
 }
 
 fn net_path(route: &str, cls: u8, code: u8, plen: usize) -> String {
@@ -834,7 +887,10 @@ fn start_net() -> Net {
     });
     let sync_client = [repe::Client::connect(&a0).unwrap(), repe::Client::connect(&a1).unwrap()];
     let async_client = rt.block_on(async { [repe::AsyncClient::connect(&a0).await.unwrap(), repe::AsyncClient::connect(&a1).await.unwrap()] });
-    Net { rt, addr: [a0, a1], sync_client, async_client }
+    let (ca, rx) = start_capture();
+    let cap_sync = repe::Client::connect(&ca).unwrap();
+    let cap_async = rt.block_on(async { repe::AsyncClient::connect(&ca).await.unwrap() });
+    Net { rt, addr: [a0, a1], sync_client, async_client, cap_sync, cap_async, captured: Mutex::new(rx) }
 }
 
 #[allow(clippy::too_many_arguments)]
@@ -877,6 +933,116 @@ fn op_net<T: Elem>(c: &mut Ctx, server: usize, client: &str, kind: &str, route: 
         }
     };
     (format!("{} {}", c.idx, s), r.is_ok())
+}
+
+fn cap_path(plen: usize) -> String {
+    if plen == 0 { String::new() } else { format!("/{}", "c".repeat(plen - 1)) }
+}
+
+/// The request frame a client helper really writes, captured byte for byte by a stand-in peer:
+/// (1) it is the frame `Message::builder().id(..).query_str(..).query_format(JsonPointer).body_*(..)`
+/// builds, (2) the aligned payload sits at a frame offset that is a multiple of the alignment,
+/// (3) served by the real borrowing route from a buffer at base misalignments 0..7 it is borrowed
+/// exactly at the aligned bases (aligned form) / always copied (regular, generic form).
+#[allow(clippy::too_many_arguments)]
+fn op_cap<T: Elem>(c: &mut Ctx, client: &str, kind: &str, cls: u8, code: u8, plen: usize, n: usize, payload: &[u8]) -> (String, bool) {
+    let net = c.net.expect("net started");
+    let xs: Vec<T> = vec_of(payload);
+    let path = cap_path(plen);
+    let t = std::time::Duration::from_secs(30);
+    let rx = net.captured.lock().unwrap();
+    while rx.try_recv().is_ok() {}
+    let r: Result<Vec<T>, repe::RepeError> = match (client, kind) {
+        ("sync", "bulk") => net.cap_sync.call_typed_slice_with_timeout(&path, &xs, t),
+        ("sync", "aligned") => net.cap_sync.call_typed_slice_aligned_with_timeout(&path, &xs, t),
+        ("sync", "serde") => net.cap_sync.call_typed_beve_with_timeout(&path, &xs, t),
+        ("async", "bulk") => net.rt.block_on(net.cap_async.call_typed_slice_with_timeout(&path, &xs, t)),
+        ("async", "aligned") => net.rt.block_on(net.cap_async.call_typed_slice_aligned_with_timeout(&path, &xs, t)),
+        ("async", "serde") => net.rt.block_on(net.cap_async.call_typed_beve_with_timeout(&path, &xs, t)),
+        _ => panic!("unknown client kind"),
+    };
+    let frame = match rx.recv_timeout(std::time::Duration::from_secs(20)) {
+        Ok(f) => f,
+        Err(_) => {
+            c.fail(&format!("numeric.cap.{}.{}.no_frame", client, kind), "the client put no whole frame on the wire".into());
+            return (format!("{} no-frame", c.idx), false);
+        }
+    };
+    drop(rx);
+    let tag = format!("{}.{}", client, kind);
+    match &r {
+        Ok(v) if kind == "aligned" && v.is_empty() => {}
+        Ok(v) if kind != "aligned" && v.len() == n && bytes_of(v) == payload => {}
+        Ok(_) => c.fail(&format!("numeric.cap.{}.echo_differs", tag), "the echoed response did not decode to the elements".into()),
+        Err(e) => c.fail(&format!("numeric.cap.{}.call_failed", tag), format!("call failed: {}", cls_of(e))),
+    }
+    if frame.len() < 48 {
+        return (format!("{} short-frame", c.idx), false);
+    }
+    let id = u64::from_le_bytes(frame[16..24].try_into().unwrap());
+    // (1) byte equality with the buffered builder's frame for the same id / path / slice
+    let b = Message::builder().id(id).query_str(&path).query_format(repe::constants::QueryFormat::JsonPointer);
+    let built = match kind {
+        "bulk" => b.body_typed_slice(&xs).build(),
+        "aligned" => b.body_aligned_typed_slice(&xs).build(),
+        _ => b.body_beve(&xs).expect("serde encode").build(),
+    };
+    if frame != built.to_vec() {
+        let bf = built.to_vec();
+        let at = frame.iter().zip(bf.iter()).position(|(a, b)| a != b).unwrap_or(frame.len().min(bf.len()));
+        c.fail(&format!("numeric.cap.{}.frame_ne_builder", tag), format!("the frame on the wire ({} bytes) differs from the MessageBuilder frame ({} bytes) at byte {} (query {} bytes)", frame.len(), bf.len(), at, plen));
+    }
+    let align = std::mem::align_of::<T>();
+    let body = &frame[(48 + plen).min(frame.len())..];
+    // (2) payload offset within the frame
+    if kind == "aligned" {
+        match aligned_layout(body, cls, code, T::W) {
+            Some((d, k)) => {
+                if (48 + plen + d) % align != 0 {
+                    c.fail(&format!("numeric.cap.{}.payload_not_aligned_in_frame", tag), format!("payload at frame offset {} (query {} bytes, align {})", 48 + plen + d, plen, align));
+                }
+                if k != n || body[d..d + k * T::W] != *payload {
+                    c.fail(&format!("numeric.cap.{}.payload_bytes", tag), "DATA block differs from the elements".into());
+                }
+            }
+            None => c.fail(&format!("numeric.cap.{}.layout", tag), "the body on the wire is not a well-formed aligned array of the element type".into()),
+        }
+    }
+    // (3) the captured frame through the real borrowing route at every base misalignment
+    let (h, seen) = ref_router::<T>(&path);
+    let mut flags = String::new();
+    for mis in 0..8usize {
+        let placed = Placed::new(&frame, mis);
+        let o = match MessageView::from_slice(placed.bytes()) {
+            Ok(view) => run_handler(&h, &seen, &path, Some(&view), None),
+            Err(_) => HOut::Odd("captured frame does not parse".into()),
+        };
+        match &o {
+            HOut::Called { seen: (k, p), ptr, .. } => {
+                let borrowed = placed.contains(*ptr);
+                flags.push(if borrowed { 'b' } else { 'c' });
+                if *k != n || p != payload {
+                    c.fail(&format!("numeric.cap.{}.elements_differ", tag), format!("route saw {} elements at misalignment {}, bits equal: {}", k, mis, p == payload));
+                }
+                let expect = kind == "aligned" && mis % align == 0;
+                if borrowed != expect {
+                    c.fail(&format!("numeric.cap.{}.{}", tag, if expect { "aligned_buffer_but_copied" } else { "borrowed_unexpectedly" }),
+                           format!("query {} bytes, receive-buffer misalignment {}, align {}: borrowed={}", plen, mis, align, borrowed));
+                }
+                if borrowed && ptr % align != 0 {
+                    c.fail(&format!("numeric.cap.{}.borrowed_misaligned", tag), format!("borrowed slice at {:#x}", ptr));
+                }
+            }
+            other => {
+                flags.push('x');
+                c.fail(&format!("numeric.cap.{}.not_served", tag), format!("captured request not served at misalignment {}: {}", mis, &show_hout(other, None)[..show_hout(other, None).len().min(60)]));
+            }
+        }
+    }
+    // the request id is the client's counter: printed apart, zeroed in the frame
+    let mut shown = frame.clone();
+    shown[16..24].copy_from_slice(&[0u8; 8]);
+    (format!("{} {} {}", c.idx, hex(&shown), flags), true)
 }
 
 // ------------------------------------------------------------------------------------------
@@ -957,6 +1123,11 @@ fn exec(out: &mut Out, line: &str, net: Option<&Net>) {
             let p = unhex(w[10]).unwrap();
             let cx = w[0] == "cstream";
             dispatch!(cls, code, op_stream(&mut c, cx, w[4].parse().unwrap(), w[5] == "1", w[6].parse().unwrap(), w[7].parse().unwrap(), &q, u(w[9]), &p))
+        }
+        "cap" => {
+            let (cls, code) = ty(w[4], w[5]);
+            let p = unhex(w[8]).unwrap();
+            dispatch!(cls, code, op_cap(&mut c, w[2], w[3], cls, code, u(w[6]), u(w[7]), &p))
         }
         "net" => {
             let (cls, code) = ty(w[6], w[7]);
@@ -1373,6 +1544,29 @@ fn generate(seed: u64, thorough: bool) -> Vec<String> {
         push!(g, "net", "{} async aligned ref 0 3 1 {} {}", server, n, hex(&p));
         push!(g, "net", "{} sync aligned ref 0 3 1 3 {}", server, hex(&p[..24]));
     }
+
+    // ---- 7. the frames the client helpers really write (capture peer) ------------------------------------
+    // aligned calls: every element type x every path length 0..16 (all residues mod 8 and 16) x both
+    // clients; longer paths and the bulk / serde helpers sampled
+    for client in ["sync", "async"] {
+        for (cls, code, w) in TYPES {
+            let mut plens: Vec<usize> = (0..=16).collect();
+            for _ in 0..(if thorough { 12 } else { 2 }) {
+                plens.push(g.r.range(17, 64) as usize);
+            }
+            for plen in plens {
+                let n = match g.r.below(5) { 0 => 0, 1 => g.r.range(64, 90), _ => g.r.range(1, 63) } as usize;
+                let p = gen_payload(&mut g.r, cls, code, w, n, 1);
+                push!(g, "cap", "{} aligned {} {} {} {} {}", client, cls, code, plen, n, hex(&p));
+                if thorough || plen % 6 == (cls as usize + code as usize) % 6 {
+                    let kind = if plen % 2 == 0 { "bulk" } else { "serde" };
+                    let n = if g.r.chance(1, 6) { 0 } else { n };
+                    let p = gen_payload(&mut g.r, cls, code, w, n, 1);
+                    push!(g, "cap", "{} {} {} {} {} {} {}", client, kind, cls, code, plen, n, hex(&p));
+                }
+            }
+        }
+    }
     g.ops
 }
 
@@ -1380,14 +1574,14 @@ fn main() {
     let args = Args::parse();
     quiet_panics();
     let mut out = Out::new(&args.out);
-    out.rule = "element types bf16,f16,f32,f64,i8..i64,u8..u64 as raw little-endian blocks (NaN payloads quiet/signalling, ±inf, ±0, subnormals, min/max, random bits); vectors of every length 0..70 (thorough: 0..4096) plus 127..4096 boundaries, 2^14±1 and (thorough) one 2^20; complex pairs; three-way comparison bulk body / serde body / model, both decoders on both bodies incl. the empty vector; aligned form behind every query length 0..64 for every type and SIZE width, the frame copied to every base misalignment 0..7 of a Vec<u64> and served by the with_typed_slice_ref handler (pointer-range test: borrowed iff payload address aligned); regular / generic / aligned-for-another-offset / corrupted bodies and every first byte through both bulk routes (view and owned); every ordered pair of distinct element types in regular, aligned and complex form; wrong body formats; streaming writers vs buffered builders; real Server and AsyncServer with bulk, aligned and serde clients (blocking and async). Distinct by op line; non-trivial = the decoder / route / call accepted and returned elements (encoders: non-empty vector)".into();
+    out.rule = "element types bf16,f16,f32,f64,i8..i64,u8..u64 as raw little-endian blocks (NaN payloads quiet/signalling, ±inf, ±0, subnormals, min/max, random bits); vectors of every length 0..70 (thorough: 0..4096) plus 127..4096 boundaries, 2^14±1 and (thorough) one 2^20; complex pairs; three-way comparison bulk body / serde body / model, both decoders on both bodies incl. the empty vector; aligned form behind every query length 0..64 for every type and SIZE width, the frame copied to every base misalignment 0..7 of a Vec<u64> and served by the with_typed_slice_ref handler (pointer-range test: borrowed iff payload address aligned); regular / generic / aligned-for-another-offset / corrupted bodies and every first byte through both bulk routes (view and owned); every ordered pair of distinct element types in regular, aligned and complex form; wrong body formats; streaming writers vs buffered builders; real Server and AsyncServer with bulk, aligned and serde clients (blocking and async); the raw request frame every client helper writes, captured by a stand-in peer for every element type and path length 0..16 (+ longer), compared with the MessageBuilder frame and served by the borrowing route at base misalignments 0..7. Distinct by op line; non-trivial = the decoder / route / call accepted and returned elements (encoders: non-empty vector)".into();
     let ops = match args.replay_ops() {
         Some(o) => o,
         // `--release-shape` (the optimised-build run of the thorough tier): the quick-sized mix, other seed
         None if args.has("--release-shape") => generate(args.seed.wrapping_add(0x5EED), false),
         None => generate(args.seed, args.thorough()),
     };
-    let need_net = ops.iter().any(|l| l.starts_with("net "));
+    let need_net = ops.iter().any(|l| l.starts_with("net ") || l.starts_with("cap "));
     let net = if need_net { Some(start_net()) } else { None };
     for line in &ops {
         if line.trim().is_empty() {
